@@ -555,6 +555,38 @@ fn gen_oscillate(rng: &mut Rng, kind: &str, size: &str) -> Scenario {
             next += 1;
         }
     }
+    // "gated" rounds (a fifth of the runs of the growable kinds): the first group is filled exactly (or one short / one over)
+    // with children that complete at once, a few more stay pending behind a gate; the ready ones are drained, then the
+    // gated ones are completed one by one, the collection is polled to its end and the next round starts from empty
+    if !bounded && rng.pct(20) {
+        let first = if sc.ctor == "new" { 32u32 } else { sc.cap as u32 };
+        let rounds = 24 + rng.below(30);
+        for _ in 0..rounds {
+            let p = (first + rng.below(3) as u32).saturating_sub(1).max(1);
+            let g = 1 + rng.below(3) as u32;
+            let mut gated = vec![];
+            for i in 0..p + g {
+                let is_gated = i >= p;
+                sc.scripts.insert(next, if is_gated { vec![] } else { ready(next) });
+                sc.ops.push(Op::Push { c: next, front: false, r#try: false });
+                if is_gated {
+                    gated.push(next);
+                }
+                next += 1;
+            }
+            for _ in 0..p {
+                sc.ops.push(Op::Poll { w: 1 });
+            }
+            sc.ops.push(Op::Poll { w: 1 });
+            for c in gated {
+                sc.ops.push(Op::Complete { c });
+                sc.ops.push(Op::Poll { w: 1 });
+            }
+            sc.ops.push(Op::Poll { w: 1 });
+        }
+        sc.tail = "drain".into();
+        return sc;
+    }
     // first-in-first-out turnover (half of the runs of the growable kinds): the children stay pending until the environment
     // completes them, oldest first, so that the older groups drain completely while the newest ones still hold futures
     if !bounded && rng.pct(50) {
